@@ -55,11 +55,20 @@ def step(p_is_c: bool, p_in_heads: bool, twin: bool = False, real: bool = False)
         # a parent that is still a tip of a non-head branch; a parent that is not a tip has a child (height hp+1 <= hc)
         if not p_is_c and not p_in_heads and not (hp + 1 <= hc):
             return True
+        # Block ids are concrete tokens. The real map type iterates in an order that depends on the ids' hash values, so the
+        # replay (real mode) tries several id assignments: a violation for the model's heights under any of them is real.
+        for variant in (range(8) if real else range(1)):
+            if not _one(hp, hc, hb, variant):
+                return False
+        return True
+
+    def _one(hp: int, hc: int, hb: int, variant: int) -> bool:
+        o = 16 * variant
         cb = env.coinbase(0, [], tok(TX, 1))
-        A = env.block(hp - 1 if hp > 0 else 0, ZERO32, [cb], tok(BLK, 9))           # an ancestor entry of P's index
-        P = env.block(hp, tok(BLK, 9), [cb], tok(BLK, 1))
-        C = P if p_is_c else env.block(hc, tok(BLK, 8), [cb], tok(BLK, 2))
-        B = env.block(hb, tok(BLK, 7), [cb], tok(BLK, 3))
+        A = env.block(hp - 1 if hp > 0 else 0, ZERO32, [cb], tok(BLK, 9 + o))           # an ancestor entry of P's index
+        P = env.block(hp, tok(BLK, 9 + o), [cb], tok(BLK, 1 + o))
+        C = P if p_is_c else env.block(hc, tok(BLK, 8 + o), [cb], tok(BLK, (2 + o) if variant % 2 == 0 else (5 + o)))
+        B = env.block(hb, tok(BLK, 7 + o), [cb], tok(BLK, (3 + o) if variant % 2 == 0 else (0 + o)))
         idxP = env.mk_map([(hp, P)]) if hp == 0 else env.mk_map([(hp - 1, A), (hp, P)])
         idxC = idxP if p_is_c else env.mk_map([(hc, C)])
         idxB = env.mk_map([(hb, B)])
@@ -80,7 +89,7 @@ def step(p_is_c: bool, p_in_heads: bool, twin: bool = False, real: bool = False)
         pre = env.state(bbh, utx, bhh, heads, C.hash())
         pre_items = {n: list(getattr(pre, n).items()) for n in
                      ("block_by_hash", "unspent_transaction_outs_by_hash", "block_by_height_by_hash", "heads")}
-        N = env.block(hp + 1, P.hash(), [env.coinbase(hp + 1, [], tok(TX, 2))], tok(BLK, 4))
+        N = env.block(hp + 1, P.hash(), [env.coinbase(hp + 1, [], tok(TX, 2))], tok(BLK, 4 + o))
         post = pre.add_block_no_validation(N)
         if twin:
             return False
